@@ -184,3 +184,94 @@ func (p *pipePath) IncrByFloat(ctx context.Context, dmn, key string, delta float
 func (p *pipePath) Lock(ctx context.Context, dmn, key string, timeout, deadline time.Duration) (Reply, Locked) {
 	return Reply{Ret: "unsupported", TTLms: -1}, nil
 }
+
+// Batch queues one operation per step in ONE pipeline, executes it once and returns the replies in step order.
+// (The other methods of this path run a pipeline per operation.)
+func (p *pipePath) Batch(ctx context.Context, dmn string, steps []Step) []Reply {
+	out := make([]Reply, len(steps))
+	pl, err := p.pipe(dmn)
+	if err != nil {
+		for i := range out {
+			out[i] = classify(err)
+		}
+		return out
+	}
+	defer pl.Close()
+	res := make([]func() Reply, len(steps))
+	for i, st := range steps {
+		st := st
+		var qerr error
+		switch st.Op {
+		case "put":
+			var f *olric.FuturePut
+			f, qerr = pl.Put(ctx, st.Key, st.Val, putOptions(st.Opts)...)
+			res[i] = func() Reply { return classify(f.Result()) }
+		case "get":
+			f := pl.Get(ctx, st.Key)
+			res[i] = func() Reply { return getReply(f.Result()) }
+		case "del":
+			f := pl.Delete(ctx, st.Key)
+			res[i] = func() Reply {
+				n, err := f.Result()
+				if err != nil {
+					return classify(err)
+				}
+				return Reply{Ret: "ok", N: n, TTLms: -1}
+			}
+		case "expire":
+			var f *olric.FutureExpire
+			f, qerr = pl.Expire(ctx, st.Key, st.D)
+			res[i] = func() Reply { return classify(f.Result()) }
+		case "getput":
+			var f *olric.FutureGetPut
+			f, qerr = pl.GetPut(ctx, st.Key, st.Val)
+			res[i] = func() Reply { return getReply(f.Result()) }
+		case "incr":
+			var f *olric.FutureIncr
+			f, qerr = pl.Incr(ctx, st.Key, st.Delta)
+			res[i] = func() Reply {
+				n, err := f.Result()
+				if err != nil {
+					return classify(err)
+				}
+				return Reply{Ret: "num", N: n, TTLms: -1}
+			}
+		case "decr":
+			var f *olric.FutureDecr
+			f, qerr = pl.Decr(ctx, st.Key, st.Delta)
+			res[i] = func() Reply {
+				n, err := f.Result()
+				if err != nil {
+					return classify(err)
+				}
+				return Reply{Ret: "num", N: n, TTLms: -1}
+			}
+		case "incrf":
+			var f *olric.FutureIncrByFloat
+			f, qerr = pl.IncrByFloat(ctx, st.Key, float64(st.Delta)/Fixed)
+			res[i] = func() Reply {
+				x, err := f.Result()
+				if err != nil {
+					return classify(err)
+				}
+				return Reply{Ret: "num", N: int(x * Fixed), TTLms: -1}
+			}
+		default:
+			panic("batch: unsupported step " + st.Op)
+		}
+		if qerr != nil {
+			e := qerr
+			res[i] = func() Reply { return classify(e) }
+		}
+	}
+	if err := pl.Exec(ctx); err != nil {
+		for i := range out {
+			out[i] = classify(err)
+		}
+		return out
+	}
+	for i := range steps {
+		out[i] = res[i]()
+	}
+	return out
+}
